@@ -509,7 +509,7 @@ def run_history(case, tmp):
                 n.read_done = True
                 o.read_done = True
                 pool.append(n)
-                outs.append({"derived": op})
+                outs.append({"derived": op, "nbatches": saved_batches(path, o.member)})
             else:
                 raise ValueError("bad op %r" % op)
         except BaseException as e:     # noqa
@@ -522,6 +522,25 @@ def run_history(case, tmp):
     del pool
     gc.collect()
     return outs, before, after
+
+
+def saved_batches(path, member):
+    """how many batches of interactions the zip member of a saved environment holds (after the header and the params)"""
+    import zipfile
+    try:
+        with zipfile.ZipFile(path) as z:
+            names = z.namelist()
+            with z.open(names[member if member < len(names) else 0]) as f:
+                n = 0
+                while True:
+                    try:
+                        pickle.load(f)
+                        n += 1
+                    except EOFError:
+                        break
+        return max(0, n - 2)
+    except Exception:
+        return None
 
 
 def reference(case, tmp, member=None):
@@ -1364,10 +1383,11 @@ def monitor(case, tmp):
     if before != after:
         ks = sorted(k for k in before if before[k] != after.get(k))
         raw.append(("source-modified", ",".join(k.rstrip("0123456789") for k in ks), "caller-passed data changed during the history: %s" % ks))
-    raw += held_data_check(case, tmp, tags)
+    hraw = held_data_check(case, tmp, tags)
+    raw += hraw
     if case.get("xproc"):
         raw += xproc_check(case, tmp, ref, tags)
-    info = {"ref_len": len(ref), "nfull": nfull, "outs": outs, "ref": ref, "refp": refp, "srcpost": srcpost, "snap_after": after}
+    info = {"ref_len": len(ref), "nfull": nfull, "outs": outs, "ref": ref, "refp": refp, "srcpost": srcpost, "snap_after": after, "held_changed": bool(hraw)}
     return raw, tags, info
 
 
@@ -1706,6 +1726,113 @@ def real_filter_node(f, name, cur, ids, attrs, par):
 
 
 REAL_FILTERS = {"Take", "Slice", "Shuffle", "Riffle", "Reservoir", "Sort", "Where"}
+CONTENT_FILTERS = {"Repr", "Flatten", "Sparsify", "Densify"}
+
+
+def _has_other(j):
+    if isinstance(j, dict):
+        return "other" in j or any(_has_other(v) for v in j.values())
+    if isinstance(j, list):
+        return any(_has_other(v) for v in j)
+    return False
+
+
+def c10_inter(it):
+    """a real interaction as the CONTENT `Model/C10` works on (JSON of C10's `Inter`, its codec reused read-only);
+    None when the interaction has a part that type cannot carry"""
+    from props import c10
+    from coba.primitives import is_batch
+    if any(is_batch(v) for v in it.values()) or any(k not in ("context", "actions", "rewards", "feedbacks", "action", "reward", "probability") for k in it):
+        return None
+    d = {}
+    if "context" in it:
+        d["context"] = c10.enc_ordered(it["context"])
+    acts = it.get("actions")
+    if "actions" in it:
+        if not isinstance(acts, (list, tuple)):
+            return None
+        d["actions"] = [c10.enc_ordered(a) for a in acts]
+    if "action" in it:
+        d["action"] = c10.enc_ordered(it["action"])
+    for key in ("reward", "probability"):
+        if key in it:
+            if isinstance(it[key], bool) or not isinstance(it[key], (int, float)):
+                return None
+            d[key] = c10.q(it[key])
+    for key in ("rewards", "feedbacks"):
+        if key in it:
+            R = it[key]
+            if callable(R):
+                if not acts:
+                    return None
+                tbl = []
+                for a in acts:
+                    v = R(a)
+                    if isinstance(v, bool) or not isinstance(v, (int, float)) or v != v or v in (float("inf"), float("-inf")):
+                        return None
+                    tbl.append([c10.enc_ordered(a), c10.q(v)])
+                d[key] = {"k": "fn", "table": tbl}
+            elif isinstance(R, (list, tuple)) and all(isinstance(v, (int, float)) and not isinstance(v, bool) for v in R):
+                d[key] = {"k": "list" if isinstance(R, list) else "tuple", "v": [c10.q(v) for v in R]}
+            else:
+                return None
+    return None if _has_other(d) else d
+
+
+def content_node(f, name, cur, ids, out, oids, par):
+    """the filter as `Model/C10`'s function on interaction content, or None when it has to stay a table"""
+    import zlib
+    from props import c10
+    p = f.params
+    if name == "Repr":
+        step = {"f": "repr", "cc": p.get("categoricals_in_context"), "ca": p.get("categoricals_in_actions")}
+    elif name == "Flatten":
+        step = {"f": "flatten"}
+    elif name == "Sparsify":
+        step = {"f": "sparsify", "c": bool(p.get("sparse_c")), "a": bool(p.get("sparse_a"))}
+    elif name == "Densify":
+        step = {"f": "densify", "n": int(p.get("dense_n")), "m": p.get("dense_m"), "c": bool(p.get("dense_c")), "a": bool(p.get("dense_a"))}
+    else:
+        return None
+    ins, outs, seen = [], [], set()
+    for it, i in zip(cur, ids):
+        if i in seen:
+            continue
+        seen.add(i)
+        c = c10_inter(it)
+        if c is None:
+            return None
+        ins.append([i, c])
+    seen = set()
+    for it, i in zip(out, oids):
+        if i in seen:
+            continue
+        seen.add(i)
+        c = c10_inter(it)
+        if c is None:
+            return None
+        outs.append([i, c])
+    if name == "Densify":
+        if step["m"] == "lookup":
+            step["prior"] = []
+        else:
+            keys = set()
+
+            def walk(v):
+                if isinstance(v, dict) and "d" in v:
+                    for k, _ in v["d"]:
+                        keys.add(k)
+            for _, c in ins:
+                walk(c.get("context"))
+                for a in c.get("actions", []) or []:
+                    walk(a)
+                walk(c.get("action"))
+            try:
+                step["hash"] = [[k, zlib.crc32(k.encode("ascii")) % step["n"]] for k in sorted(keys)]
+            except Exception:
+                return None
+    return {"k": "content", "step": step, "cfg": c10.detect_cfg(), "in": ins, "out": outs, "par": par}
+
 
 
 def describe_member(case, env, msrc, I, attrs, fin_table, fin_elem, srcpost=None):
@@ -1726,6 +1853,7 @@ def describe_member(case, env, msrc, I, attrs, fin_table, fin_elem, srcpost=None
     has_protected_later = [any(isinstance(q, cp.Cache) and q.protected for q in pipes[i + 1:]) for i in range(len(pipes))]
     nfin = 0
     nreal = 0
+    ncontent = [0]
     for i, f in enumerate(pipes[1:], 1):
         name = type(f).__name__
         if isinstance(f, cp.Cache):
@@ -1735,6 +1863,7 @@ def describe_member(case, env, msrc, I, attrs, fin_table, fin_elem, srcpost=None
             out = list(f.filter(cur))
             oids = I.items([cint(x) for x in out])
             fin_table.append([ids, oids])
+            fin_elem.setdefault("_content", []).append((cur, ids, out, oids))
             em = elem_map(ids, oids)
             if em:
                 for a, b in em:
@@ -1761,6 +1890,18 @@ def describe_member(case, env, msrc, I, attrs, fin_table, fin_elem, srcpost=None
         dem = "lazy" if name in LAZY else "eager" if name in EAGER else "calltime" if name in CALLTIME else "opaque"
         if dem == "opaque" and seen_stateful:
             asis_ok = False
+        cnode = None
+        if name in CONTENT_FILTERS and isinstance(f, getattr(ef, name, ())):
+            try:
+                cnode = content_node(f, name, cur, ids, out, oids, par)
+            except Exception:
+                cnode = None
+        if cnode is not None:
+            cnode["cls"] = name
+            nodes.append(cnode)
+            ncontent[0] += 1
+            cur, ids = out, oids
+            continue
         em = elem_map(ids, oids) if name in ELEMENTWISE else None
         if em is not None:
             node = {"k": "filt", "op": "map", "elem": em, "par": par, "cls": name}      # a function of the interaction
@@ -1775,6 +1916,7 @@ def describe_member(case, env, msrc, I, attrs, fin_table, fin_elem, srcpost=None
             again = list(ef.BatchSafe(ef.Finalize()).filter(a_objs))
             aids = I.items([cint(x) for x in again])
             fin_table.append([a_ids, aids])
+            fin_elem.setdefault("_content", []).append((a_objs, a_ids, again, aids))
             if aids == a_ids:
                 break
             a_objs, a_ids = again, aids
@@ -1783,7 +1925,7 @@ def describe_member(case, env, msrc, I, attrs, fin_table, fin_elem, srcpost=None
     chain = case.get("chain", [])
     own = nfin == 1 and isinstance(pipes[-1], ef.BatchSafe) and not any(
         st["m"] in ("materialize", "save") or (st["m"] == "filter" and st["f"]["cls"] == "BatchSafe" and st["f"].get("inner", {}).get("cls") == "Finalize") for st in chain)
-    return {"src": src, "nodes": nodes, "ownFin": bool(own)}, ids, asis_ok, nreal
+    return {"src": src, "nodes": nodes, "ownFin": bool(own), "_ncontent": ncontent[0]}, ids, asis_ok, nreal
 
 
 def describe(case, tmp, nd, srcpost=None):
@@ -1816,9 +1958,34 @@ def describe(case, tmp, nd, srcpost=None):
     before = snapshot(watch)
     keys = sorted(before)
     caller = [[I.tok("caller", k, before[k])] for k in keys]
+    fin_content = fin_elem.pop("_content", [])
     req = {"fin": {"table": fin_table, "elem": [[a, b] for a, b in fin_elem.items()], "dem": "lazy"}, "attrs": alist, "objs": objs, "caller": caller}
+    # Finalize as Model/C10's function on content, when every interaction it sees has a content form
+    try:
+        from props import c10
+        ins, outs, si, so, ok = [], [], set(), set(), bool(fin_content)
+        for cur, ids, out, oids in fin_content:
+            for it, i in zip(cur, ids):
+                if i not in si:
+                    si.add(i)
+                    c = c10_inter(it)
+                    ok = ok and c is not None
+                    ins.append([i, c])
+            for it, i in zip(out, oids):
+                if i not in so:
+                    so.add(i)
+                    c = c10_inter(it)
+                    ok = ok and c is not None
+                    outs.append([i, c])
+            if not ok:
+                break
+        if ok:
+            req["fin"]["content"] = {"step": {"f": "finalize"}, "cfg": c10.detect_cfg(), "in": ins, "out": outs, "par": []}
+    except Exception:
+        pass
     main = finals[list(members).index(mem)]
-    return req, I, main, asis_ok, {"nreal": nreal, "members": len(objs), "caller_keys": keys}
+    ncontent = sum(o.pop("_ncontent", 0) for o in objs)
+    return req, I, main, asis_ok, {"nreal": nreal, "ncontent": ncontent, "fin_content": "content" in req["fin"], "members": len(objs), "caller_keys": keys}
 
 
 def model_ops(case, nmembers):
@@ -1893,7 +2060,7 @@ def compare_model(case, outs, model, where, I):
 class C04(Property):
     id = "C04"
     prop_modules = ["CobaVerif.Props.C04"]
-    quick_n = 700
+    quick_n = 450
     thorough_n = 8000
     search_n = 1500
     case_timeout = 60
@@ -2096,10 +2263,10 @@ class C04(Property):
                     {"m": "noise", "k": {"context": {"t": ["i", 1, 2]}, "reward": {"t": ["i", 1, 1]}, "seed": 2}}, {"m": "repr", "a": ["onehot", "string"]},
                     {"m": "flatten"}, {"m": "sparse", "a": [True, True]}, {"m": "cycle", "a": [0]}, {"m": "binary"}, {"m": "sort", "a": []},
                     {"m": "grounded", "a": [3, 2, 4, 2, 1]}, {"m": "batch", "a": [2]}]
-        for _, src, pre in kinds:
-            for holder in ({"m": "cache"}, {"m": "materialize"}):
-                for mut in mutators:
-                    cs.append({"src": src, "chain": pre + [holder, mut], "hist": [full, full, par]})
+        for ki, (_, src, pre) in enumerate(kinds):
+            for mi, mut in enumerate(mutators):
+                holder = [{"m": "cache"}, {"m": "materialize"}][(ki + mi) % 2]       # both holders for every kind and every mutator, alternating
+                cs.append({"src": src, "chain": pre + [holder, mut], "hist": [full, full, par]})
         # a source that owns its params dict, used directly; two environments over ONE source object, read in both orders
         pairs = [{"t": [[1.0, 2.0], 1]}, {"t": [[3.0, 4.0], 2]}, {"t": [[5.0, 6.0], 3]}, {"t": [[7.0, 8.0], 1]}]
         ident = {"kind": "sup_rows", "via": "identity", "rows": pairs, "label_col": None, "label_type": "c", "take": None}
@@ -2138,6 +2305,11 @@ class C04(Property):
         cs.append({"src": lin, "sibs": [lin2, dict(lin, n=4, seed=9)], "member": 2, "chain": [],
                    "hist": [{"op": "cache", "on": 0}, {"op": "sib", "on": 1, "i": 0}, {"op": "full", "on": 1}, {"op": "sib", "on": 1, "i": 1}, {"op": "full", "on": 1},
                             {"op": "save", "on": 1}, {"op": "sib", "on": 2, "i": 0}, {"op": "full", "on": 2}]})
+        # grounded() as the last step: users and feedback words predicted by the memo model
+        for src_ in (dict(lin, n=12, n_actions=4), dict(lam, n=9)):
+            for ga in ([3, 2, 4, 2, 1], [5, 0, 6, 3, 7], [1, 1, 2, 1, 0]):
+                cs.append({"src": src_, "chain": [{"m": "grounded", "a": ga}], "hist": [full, part(2), full]})
+        cs.append({"src": dict(lin, n=12, n_actions=4), "chain": [{"m": "shuffle", "a": [3]}, {"m": "grounded", "a": [4, 2, 5, 2, 3]}], "hist": [full, full]})
         # filters that memoise per instance: more (interaction, action) evaluations per read than a bounded memo would hold
         big = dict(lin, n=100, n_actions=4)
         for chain in ([{"m": "grounded", "a": [3, 2, 4, 2, 1]}, {"m": "materialize"}], [{"m": "grounded", "a": [3, 2, 4, 2, 1]}, {"m": "cache"}],
@@ -2259,7 +2431,52 @@ class C04(Property):
         model = None
         if driver is not None and not any(t.startswith("unsupported:") for t in tags):
             model = self.correspondence(case, info, fails, tags, driver, tmp)
+            try:
+                if "held-data-check" in tags:
+                    self.alias_tie(case, info, fails, tags, driver)
+                if case.get("chain") and case["chain"][-1]["m"] == "grounded" and info["ref_len"] > 0:
+                    self.grounded_pipeline(case, fails, tags, driver, tmp)
+            except BaseException as e:
+                if not trappable(e):
+                    raise
+                tags.append("A:extra-not-run:" + errname(e))
         return {"fails": fails, "nontrivial": nontrivial, "tags": tags, "impl": impl, "model": model}
+
+    def grounded_pipeline(self, case, fails, tags, driver, tmp):
+        """a pipeline that ends with grounded(): user ids, normal flags and every feedback word of a fresh read are PREDICTED by the
+        memo model (user draw and word draws through Model/C05) from the seed and the position of the best action only"""
+        g = case["chain"][-1]
+        n_users, n_normal, n_words, n_good, gseed = [dv(x) for x in g["a"]]
+        envs, _ = build(case, tmp)
+        items = list(envs[member_of(case)].read())
+        if not items or any(not isinstance(it.get("actions"), (list, tuple)) or not callable(it.get("feedbacks")) for it in items):
+            return
+        insts, reads, real, uids, normals = [], [], [], [], []
+        for t, it in enumerate(items):
+            acts = it["actions"]
+            vals = [it["rewards"](a) if callable(it["rewards"]) else it["rewards"][i] for i, a in enumerate(acts)]
+            insts.append({"seed": {"int": gseed + t}, "ngood": n_good, "nbad": n_words - n_good, "argmax": max(range(len(acts)), key=lambda i: vals[i]), "normal": True})
+            reads += [[t, i] for i in range(len(acts))]
+            real += [it["feedbacks"](a)[0] for a in acts]
+            uids.append(it.get("userid"))
+            normals.append(bool(it.get("isnormal")))
+        ans = driver.ask({"memo": {"cap": None, "insts": insts, "reads": [reads], "users": {"seed": {"int": gseed}, "n": n_users, "normal": n_normal}}})
+        if ans["values"] != [real] or ans["userids"] != uids or ans["normals"] != normals:
+            fails.append(F("A", "grounded(): feedback words / users of a fresh read differ from the memo model: words %s vs %s, users %s vs %s"
+                           % (real[:10], ans["values"][0][:10], uids[:8], ans["userids"][:8]), "A:grounded-pipeline"))
+        else:
+            tags.append("A:grounded-pipeline-model")
+
+    def alias_tie(self, case, info, fails, tags, driver):
+        """the aliasing model (every stage behind the holder copies before it writes) against the object-identity snapshots"""
+        chain = case.get("chain", [])
+        hold = max(i for i, st in enumerate(chain) if st["m"] in ("cache", "materialize", "chunk", "save") or (st["m"] == "filter" and st["f"]["cls"] == "Cache"))
+        ans = driver.ask({"alias": {"stages": ["share"] + ["copy"] * (len(chain) - hold - 1), "store": [3, 5, 8], "held": [0, 1, 2], "mul": 2}})
+        model_unchanged = ans["heldAfter1"] == [3, 5, 8] and ans["heldAfter2"] == [3, 5, 8] and ans["first"] == ans["second"]
+        if model_unchanged != (not info.get("held_changed")):
+            fails.append(F("A", "aliasing: the model (copying stages) leaves the held objects unchanged, the implementation changed them", "A:alias"))
+        else:
+            tags.append("A:alias-model")
 
     def correspondence(self, case, info, fails, tags, driver, tmp):
         """(A) implementation = model on every observation of the history; (C) model = spec"""
@@ -2280,6 +2497,10 @@ class C04(Property):
         model = ans["model"]
         if dinfo["nreal"]:
             tags.append("A:real-filters:%d" % min(dinfo["nreal"], 4))
+        if dinfo.get("fin_content"):
+            tags.append("A:finalize-as-function")
+        if dinfo.get("ncontent"):
+            tags.append("A:content-filters:%d" % min(dinfo["ncontent"], 3))
         if nmem > 1:
             tags.append("A:collection-in-model")
         den = ans["dens"][member_of(case) if nmem > 1 else 0]
@@ -2295,6 +2516,14 @@ class C04(Property):
         else:
             tags.append("hyp:not-good")
         diffs = compare_model(case, info["outs"], model, where, I)
+        # save(): the number of batches written (1000 interactions each) against the model's `saveBatches`, which `load_save_batches` inverts
+        for o in info["outs"]:
+            if o.get("derived") == "save" and o.get("nbatches") is not None and ans.get("hyp") and not diffs:
+                if o["nbatches"] != ans["saveBatches"][member_of(case) if nmem > 1 else 0] or not ans.get("saveRoundTrip"):
+                    diffs.append((0, "save() wrote %s batches, the model %s" % (o["nbatches"], ans["saveBatches"])))
+                else:
+                    tags.append("A:save-batches")
+                break
         # caller-owned objects: the model's heap cells after the history against the snapshot taken after the real history
         after = info.get("snap_after") or {}
         real_cells = [[I.tok("caller", k, after.get(k))] for k in dinfo["caller_keys"]]
